@@ -228,6 +228,8 @@ Definition notation_case_ok (fen : str) (s : str) (is_san : bool) (observed : N)
   | None => false
   | Some p => move_code (if is_san then from_san p s else from_uci p s) =? observed
   end.
+(* The checkers for the encoding functions (enc_create_ok, enc_get_ok, enc_set_ok) live in
+   MoveEnc.v next to the encoding model, so that this file does not depend on Tables_gen. *)
 (* what the model answers (for diagnostics) *)
 Definition notation_model (fen : str) (s : str) (is_san : bool) : option N :=
   match parse fen with
